@@ -201,8 +201,11 @@ Fixpoint stores_in (own : list fld) (p : list fx) : bool :=
   | L bs :: r => existsb (existsb (touches own)) bs || stores_in own r
   end.
 
+Definition pair_paths_raw (T : list func) (C : list cls) (nonnone : bool) (q : pair) : alts :=
+  match find_cls C (q_cls q) with None => [[X FBad]] | Some c => flat FUEL T c nonnone (q_fid q) end.
+
 Definition pair_paths (T : list func) (C : list cls) (nonnone : bool) (q : pair) : alts :=
-  match find_cls C (q_cls q) with None => [[X FBad]] | Some c => map (resolve []) (flat FUEL T c nonnone (q_fid q)) end.
+  map (resolve []) (pair_paths_raw T C nonnone q).
 
 Definition pair_watch (C : list cls) (q : pair) : list fld :=
   match find_cls C (q_cls q) with None => [] | Some c => c_watch c end.
@@ -312,8 +315,9 @@ Fixpoint combos {A} (ls : list (list A)) : list (list A) :=
 Definition must_raise T C q : bool :=
   match pair_paths T C true q with [] => true | _ => false end.
 
+(* the guards are resolved on the whole sequence: a field stored by an earlier setter of the session is in memory *)
 Definition seq_paths T C (qs : list pair) : list (list fe) :=
-  map (fun ps => List.concat ps) (combos (map (fun q => flat_map unroll01 (pair_paths T C true q)) qs)).
+  flat_map (fun ps => unroll01 (resolve [] (List.concat ps))) (combos (map (pair_paths_raw T C true) qs)).
 
 Definition attr_lost_on T (C : list cls) (q : pair) (b : pair) (p : list fe) : bool :=
   existsb (fun f => memN f (lost_fields (pair_watch C q) p)) (q_own b)
